@@ -383,4 +383,78 @@ theorem recoverDecision_public (P : Pub11) (e : Nat × Nat × Nat) (s1 s2 : Nat)
   unfold recoverDecision
   simp [h1, h2]
 
+/-! ## phase 12: the group key -/
+
+/-- the individual keys (exponents) a member adds up in `CombineGroupPublicKey` -/
+def keyTerms (s : St) : List Nat :=
+  s.pts.headD 0 :: (s.validPts.map (fun p => p.2.headD 0) ++
+    (s.reconPriv.filter (fun p => !(s.fixKey && hasKey p.1 s.validPts))).map (·.2))
+
+private theorem foldl_add_mod {α} (q : Nat) (g : α → Nat) (l : List α) (acc : Nat) :
+    l.foldl (fun acc p => (acc + g p) % q) acc % q = (acc + (l.map g).sum) % q := by
+  induction l generalizing acc with
+  | nil => simp
+  | cons p rest ih =>
+    simp only [List.foldl_cons, List.map_cons, List.sum_cons]
+    rw [ih, Nat.mod_add_mod, Nat.add_assoc]
+
+private theorem foldl_add_lt {α} (q : Nat) (hq : 0 < q) (g : α → Nat) (l : List α) (acc : Nat)
+    (h : acc < q) : l.foldl (fun acc p => (acc + g p) % q) acc < q := by
+  induction l generalizing acc with
+  | nil => simpa using h
+  | cons p rest ih => exact ih _ (Nat.mod_lt _ hq)
+
+private theorem mod3k (a b c q : Nat) : (a % q + b + c % q) % q = (a + (b + c)) % q := by
+  calc (a % q + b + c % q) % q = ((a % q + b) % q + (c % q) % q) % q := Nat.add_mod _ _ _
+    _ = ((a + b) % q + c % q) % q := by rw [Nat.mod_add_mod a q b, Nat.mod_mod]
+    _ = (a + b + c) % q := (Nat.add_mod _ _ _).symm
+    _ = (a + (b + c)) % q := by rw [Nat.add_assoc]
+
+/-- `CombineGroupPublicKey`: the key exponent is the sum of the individual keys modulo `q` -/
+theorem phase12_gk (s : St) (hq : 0 < s.q) : (phase12 s).gk = some ((keyTerms s).sum % s.q) := by
+  simp only [phase12, keyTerms, List.sum_cons, List.sum_append]
+  congr 1
+  have l1 := foldl_add_lt s.q hq (fun p : Nat × List Nat => p.2.headD 0) s.validPts
+    (s.pts.headD 0 % s.q) (Nat.mod_lt _ hq)
+  have e1 := foldl_add_mod s.q (fun p : Nat × List Nat => p.2.headD 0) s.validPts (s.pts.headD 0 % s.q)
+  have l2 := foldl_add_lt s.q hq (fun p : Nat × Nat => p.2)
+    (s.reconPriv.filter (fun p => !(s.fixKey && hasKey p.1 s.validPts))) _ l1
+  have e2 := foldl_add_mod s.q (fun p : Nat × Nat => p.2)
+    (s.reconPriv.filter (fun p => !(s.fixKey && hasKey p.1 s.validPts)))
+    (s.validPts.foldl (fun acc p => (acc + p.2.headD 0) % s.q) (s.pts.headD 0 % s.q))
+  rw [← Nat.mod_eq_of_lt l2, e2, Nat.add_mod, ← Nat.mod_eq_of_lt l1, Nat.mod_mod, e1,
+    Nat.mod_add_mod]
+  exact mod3k _ _ _ _
+
+private theorem perm_sum {l₁ l₂ : List Nat} (h : l₁.Perm l₂) : l₁.sum = l₂.sum := by
+  induction h with
+  | nil => rfl
+  | cons x _ ih => simp [ih]
+  | swap x y l => simp only [List.sum_cons]; omega
+  | trans _ _ ih1 ih2 => exact ih1.trans ih2
+
+/-- **Group key agreement step.**  Two members over the same modulus that hold the same individual
+    keys — own zeroth coefficient, zeroth valid points of the others, reconstructed keys; as
+    multisets, in any order — combine the same group public key. -/
+theorem group_key_agree_step (a b : St) (hq : a.q = b.q) (hpos : 0 < a.q)
+    (hterms : (keyTerms a).Perm (keyTerms b)) : (phase12 a).gk = (phase12 b).gk := by
+  rw [phase12_gk a hpos, phase12_gk b (hq ▸ hpos), perm_sum hterms, hq]
+
+/-- …in particular the order in which Go ranges over the `receivedValid…Points` and
+    `reconstructedIndividualPublicKeys` maps is irrelevant. -/
+theorem group_key_order_independent (s s' : St) (hq : s.q = s'.q) (hpos : 0 < s.q)
+    (hpts : s.pts = s'.pts) (hfk : s.fixKey = s'.fixKey)
+    (hv : s.validPts.Perm s'.validPts) (hr : s.reconPriv.Perm s'.reconPriv)
+    (hk : ∀ m, hasKey m s.validPts = hasKey m s'.validPts) :
+    (phase12 s).gk = (phase12 s').gk := by
+  apply group_key_agree_step s s' hq hpos
+  unfold keyTerms
+  rw [hpts, hfk]
+  refine List.Perm.cons _ (List.Perm.append (hv.map _) ?_)
+  have : (fun p : Nat × Nat => !(s'.fixKey && hasKey p.1 s.validPts)) =
+      (fun p : Nat × Nat => !(s'.fixKey && hasKey p.1 s'.validPts)) := by
+    funext p; rw [hk]
+  rw [this]
+  exact (hr.filter _).map _
+
 end KeepVerif.C01
